@@ -124,7 +124,7 @@ def retryable_names(ctx, f, h):
     return expand(t, f.module)
 
 
-@rule('C03.a', ['C03', 'C07', 'C05'], floor=6)
+@rule('C03.a', ['C03', 'C07', 'C05', 'C08'], floor=6)
 def single_funnel(ctx):
     """Task.__call__ wraps waiting, kwarg gathering and _execute_main in a try whose
     handler catches Exception (or wider) and records it; no Task subclass overrides
@@ -365,7 +365,7 @@ def on_queued_calls(ctx, f):
     return out
 
 
-@rule('C03.e', ['C03', 'C05', 'C08'], floor=4)
+@rule('C03.e', ['C03', 'C05', 'C08', 'C07', 'C04'], floor=4)
 def submission_failures_recorded_and_announced(ctx):
     """SubmissionTask._main: the try covers set_status_to_queued, the on_queued loop,
     set_status_to_running and _submit; the handler catches BaseException and, in
@@ -399,9 +399,45 @@ def submission_failures_recorded_and_announced(ctx):
            and g.all_dominate(rec, wait, g.NORMAL, entry=hn[0]) and g.all_dominate(wait, ann, g.NORMAL, entry=hn[0])
            and g.must_pass(hn, ann, [g.exit], g.NORMAL),
            'the handler must record the error, wait for every spawned future, then announce done (cleanups/on_done only after all requests returned)')
+    # no silent way out: a submission task that returns normally without having run _submit (which
+    # hands the transfer to a final task) and without announcing leaves the transfer never done
+    subn = [n for c in own_calls(f.node) if (dotted(c.func) or '').split('.')[-1] == '_submit' for n in g.nodes_of(c)]
+    ctx.ob(f, 'every normal path through _main runs _submit(...) or announce_done()', bool(subn) and g.must_pass([g.entry], subn + ann, [g.exit], g.NORMAL),
+           'a return before _submit (e.g. "already cancelled, nothing to do") means nobody ever announces done: result()/shutdown() hang, cleanups and on_done never run')
     # the wait helper loops until the set of associated futures is stable
     w = ctx.func('tasks.SubmissionTask._wait_for_all_submitted_futures_to_complete')
     loops = [n for n in own_nodes(w.node) if isinstance(n, ast.While)]
     ok = bool(loops) and any((dotted(c.func) or '').endswith('_wait_until_all_complete') and q.in_loop(c) is not None for c in own_calls(w.node)) \
         and sum('associated_futures' in norm(n) for n in own_nodes(w.node) if isinstance(n, ast.Assign)) >= 2
     ctx.ob(w, 'wait until associated futures reach a fixed point', ok, 'tasks spawned by tasks must be waited for as well')
+
+
+@rule('C03.f', ['C03'], floor=3)
+def who_may_record_a_failure(ctx):
+    """A failure is recorded on the (manager) coordinator only by the two funnels - Task.__call__ and
+    SubmissionTask._main, in their handlers, through Task._log_and_set_exception - and by the user
+    facing TransferFuture.set_exception.  A task body that records an error itself and returns
+    normally is overridden by the final task's set_result (reported success of a failed step)."""
+    tgt = ctx.func(f'{COORD}.set_exception')
+    allowed = {'tasks.Task._log_and_set_exception', 'futures.TransferFuture.set_exception'}
+    n = 0
+    for cf, c, r in q.callers_of(ctx, tgt.qualname):
+        if r.kind == 'ambiguous' and cf.module.name == 'crt':
+            continue
+        n += 1
+        ctx.ob(cf, c, cf.qualname in allowed, 'only the task funnel may record a failure; a step signals failure by raising')
+    ctx.need(n >= 2, f'only {n} callers of TransferCoordinator.set_exception')
+    for cf, c, r in q.callers_of(ctx, 'tasks.Task._log_and_set_exception'):
+        ctx.ob(cf, c, cf.qualname in ('tasks.Task.__call__', 'tasks.SubmissionTask._main') and q.in_handler(c) is not None,
+               'the recording helper is called only from the handlers of the two funnels')
+    # a read of coordinator.exception is never re-raised inside a task body (it would be taken for
+    # an error of the current step - e.g. a retryable stream error)
+    base = ctx.cls('tasks.Task')
+    for cl in base.all_subclasses():
+        for m in cl.methods.values():
+            for rs in own_nodes(m.node):
+                if isinstance(rs, ast.Raise) and rs.exc is not None:
+                    v = q.resolve_local(m, rs.exc)
+                    bad = isinstance(v, ast.Attribute) and v.attr == 'exception' and 'coordinator' in norm(v.value)
+                    ctx.ob(m, rs, not bad, 'raising the transfer\'s stored exception inside a task body re-enters the step\'s own error handling '
+                                           '(a stored write error becomes a "retryable" stream error)', trivial=not bad)
